@@ -282,14 +282,19 @@ PREEMPT_STATEMENTS = {
     'transactions': ('SELECT count(*) AS n, last(narration) AS l FROM #transactions', None),
     'transactions2': ('SELECT date, narration, flag FROM #transactions', None),
     'distinct': ('SELECT DISTINCT flag, maxwidth(narration, 12) AS m ORDER BY flag', None),
+    'balancesA': ("BALANCES AT cost WHERE account ~ 'Assets'", None),
+    'balancesB': ("BALANCES AT cost WHERE account ~ 'Expenses'", None),
+    'opendates': ('SELECT account, open_date(account) AS d, account_sortkey(account) AS k, possign(number, account) AS s', None),
+    'opendates2': ('SELECT DISTINCT account, open_date(account) AS d, close_date(account) AS c ORDER BY account', None),
 }
 
 
-def preempt_ledger():
+def preempt_ledger(variant=0):
     # every narration is longer than the widths used by the maxwidth statements: a preemption at the first occurrence of a line
     # (the first row) already shows a difference
     long = ' - a narration that is long enough to be cut at both of the widths used below'
-    opens = ledger.opens()
+    # (the second connection of the separate-connection runs has a ledger whose accounts were opened on another date)
+    opens = ledger.opens(date=datetime.date(2001, 2, 3)) if variant else ledger.opens()
     t1 = ledger.txn(datetime.date(2019, 1, 2), [ledger.posting('Assets:Bank', D('1000.00'), 'USD'),
                                                 ledger.posting('Income:Salary', D('-1000.00'), 'USD')], narration='salary' + long, lineno=20)
     t2 = ledger.txn(datetime.date(2019, 1, 10), [ledger.posting('Expenses:Food', D('12.50'), 'USD'),
@@ -348,7 +353,7 @@ def _trace_points(stmt, with_parser, occurrences=2):
 def _preempted(stmt_a, stmt_b, k, shared, with_parser):
     """Run A until its k-th line event, run B to completion in another thread, resume A."""
     conn_a = ledger.connect(preempt_ledger(), ledger.default_options())
-    conn_b = conn_a if shared else ledger.connect(preempt_ledger(), ledger.default_options())
+    conn_b = conn_a if shared else ledger.connect(preempt_ledger(1), ledger.default_options())
     out = {}
     count = [0]
 
@@ -376,17 +381,19 @@ def _preempted(stmt_a, stmt_b, k, shared, with_parser):
     return out.get('a'), out.get('b')
 
 
-def _preempt_check(name_a, name_b, shared, with_parser):
+def _preempt_check(name_a, name_b, shared, with_parser, stride=1):
     stmt_a, stmt_b = PREEMPT_STATEMENTS[name_a], PREEMPT_STATEMENTS[name_b]
     if not with_parser:
         # parsing is not under test here (the generated parser's lines are excluded): parse once, execute copies of the tree
         stmt_a = (beanquery.parser.parse(stmt_a[0]), stmt_a[1])
         stmt_b = (beanquery.parser.parse(stmt_b[0]), stmt_b[1])
     serial_a = _outcome(ledger.connect(preempt_ledger(), ledger.default_options()), stmt_a)
-    serial_b = _outcome(ledger.connect(preempt_ledger(), ledger.default_options()), stmt_b)
+    serial_b = _outcome(ledger.connect(preempt_ledger(0 if shared else 1), ledger.default_options()), stmt_b)
     points, total = _trace_points(stmt_a, with_parser, 2 if _os.environ.get('VERIF_TIER') == 'thorough' else 1)
     if with_parser:
         points = points[::7]
+    elif stride > 1:
+        points = points[::stride]
     for k in points:
         got_a, got_b = _preempted(stmt_a, stmt_b, k, shared, with_parser)
         if got_b is None:
@@ -398,10 +405,12 @@ def _preempt_check(name_a, name_b, shared, with_parser):
     return 'ok'
 
 
-def make_preempt(name_a, name_b, with_parser=False, quick=300, thorough=600):
+def make_preempt(name_a, name_b, with_parser=False, quick=300, thorough=600, stride=1):
     @cond(f'C20.preempt.{name_a}-{name_b}', quick=quick, thorough=thorough,
-          bounds=f'two threads, separate or shared connection: "{PREEMPT_STATEMENTS[name_a][0][:60]}" is suspended once, at the first '
-                 f'(thorough tier: also the second) occurrence of any source line of the tree under test it executes (compilation and execution'
+          bounds=f'two threads, separate (ledgers differing in their open directives) or shared connection: '
+                 f'"{PREEMPT_STATEMENTS[name_a][0][:60]}" is suspended once, at the first (thorough tier: also the second'
+                 + (f'; quick tier of this pair: every {stride}th such point' if stride > 1 else '')
+                 + ') occurrence of any source line of the tree under test it executes (compilation and execution'
                  + (', every 7th such point inside the generated parser too' if with_parser else '; lines of the generated parser '
                     'excluded') + f'), "{PREEMPT_STATEMENTS[name_b][0][:60]}" then runs to completion and the first one '
                  'resumes: both outcomes (rows and description, or the error with its location) equal serial execution',
@@ -411,7 +420,8 @@ def make_preempt(name_a, name_b, with_parser=False, quick=300, thorough=600):
                'more preemptions at this granularity are outside the bound (the switch-point schedules of C20.pair are the '
                'multi-switch family)')
     def preempt(shared):
-        return native(_preempt_check, name_a, name_b, bool(shared), with_parser)
+        return native(_preempt_check, name_a, name_b, bool(shared), with_parser,
+                      stride if _os.environ.get('VERIF_TIER') != 'thorough' else 1)
     return preempt
 
 
@@ -420,5 +430,8 @@ _QUICK_PREEMPT = [('maxwidth40', 'maxwidth16'), ('balance', 'balance'), ('aggreg
 # (JOURNAL / BALANCES parse their template during compilation: ~8 minutes of CPU per pair, thorough tier only)
 for _a, _b in _QUICK_PREEMPT + [('maxwidth16', 'distinct'), ('aggregate', 'aggregate'), ('journal', 'balances'), ('balances', 'journal')]:
     make_preempt(_a, _b, quick=300 if (_a, _b) in _QUICK_PREEMPT else None, thorough=900)
+# (BALANCES parses its template during compilation: every 6th preemption point in the quick tier)
+make_preempt('balancesA', 'balancesB', quick=400, thorough=1200, stride=6)
+make_preempt('opendates', 'opendates2', quick=300, thorough=900)
 make_preempt('baddate', 'trivial', with_parser=True)
 make_preempt('trivial', 'baddate', with_parser=True)
